@@ -81,6 +81,7 @@ fn main() {
                 "C04" => {
                     c04::corr_smh(&mut ctx);
                     ssk::corr_sets(&mut ctx);
+                    ssk::corr_sets_nohash(&mut ctx);
                     dens::corr(&mut ctx)
                 }
                 "C03" => { c04::corr_smh(&mut ctx); stats::smh_statistics(&mut ctx); }
